@@ -315,6 +315,10 @@ pub fn run_prop(ctx: &Ctx) -> PropReport {
     rep.part(|| run_enum(ctx, "cap_then_packets",
         "enumeration: a host (all-local or with one remote peer) and a spectator whose outgoing packets are lost for 118..=141 ticks with a 20 s timeout and notify delays {100, 400, 1500 ms} x latency {0,20,45 ms} x fps {60,100}: the host reports NetworkInterrupted, then disconnects the spectator when more than 128 inputs are unacknowledged, and the spectator's packets arrive again within a few ticks of that moment; oracle: per-address grammar (nothing after Disconnected), queue bound; non-trivial = the spectator was disconnected",
         NCAP, move |i| cap_case(i, seed), |sc| { let mut r = eval(sc); r.nontrivial = r.classes.contains(&"timeout_disconnect"); r }, true));
+    rep.part(|| run_enum(ctx, "late_joiner",
+        "C07's death_before_start scenarios: a two-peer session waits for a spectator that cannot be reached yet; the remote player completes its handshake, dies and its endpoint is shut down 5 s later; the spectator completes its handshake 0.3 / 4 / 5.6 / 7 s after the drop: grammar, exact event timing, and the session is Running exactly when every address has produced Synchronized",
+        // (only the timeout variants: events after an explicit disconnect_player are C07's business)
+        super::c07::NBASE * 4, move |i| super::c07::prestart_case((i % super::c07::NBASE) + super::c07::NBASE * 2 * (i / super::c07::NBASE), seed), |sc| { let mut r = eval(sc); r.nontrivial = r.classes.contains(&"timeout_disconnect") || sc.ops.iter().any(|o| matches!(o, Op::Disconnect { .. })); r }, false));
     rep.floors.push(("handshake".into(), 0.3));
     rep.assumptions = vec!["event instants are poll instants; the timing predictor is exact at poll granularity and is applied to sessions with <= 2 peers (endpoints in larger sessions can be disconnected through gossip, which is C10's space)".into()];
     rep
